@@ -26,7 +26,7 @@ LEVEL = ("(Limit clause also with a bath-memory cut-off time and through both co
          "equals the static tensor at the last; (4) uncoupled sites with high-temperature or general overdamped "
          "Brownian baths: TD-Redfield propagation of every coherence equals exp(-i(w-W)t - g_a(t) - conj g_b(t)) within "
          "the first-order endpoint-rule error dt*max|dg/dt| plus the Taylor truncation bound."
-         " Later additions: deterministic grid of time dependence x coarser axis x refinement x dephasing x named expansion order.")
+         " Later additions: deterministic grid of time dependence x coarser axis x refinement x dephasing x named expansion order. Round five: the time-dependent tensor acting as its elements; twin Lindblad forms from one interaction object.")
 NOTE = ("Clause 4 tolerance is an explicit error model: the time-local propagation sums g'(t_n) dt instead of "
         "integrating g', which is bounded by dt times the total variation of g' (bounded analytically, exponential term "
         "by term); allowed = 1.25*|rho_ab(0)|*dt_eff*TV(g_a' + conj g_b') + class-2 bound + 2e-4, the factor 1.25 "
